@@ -305,11 +305,12 @@ class CallMixin:
             # exception class without field model: allocate only (its __init__ only stores message data)
             self.assumptions_used.add("exception class %s: __init__ not executed (no field model)" % name)
             return k(obj, st)
-        ic = self.reg.contracts.get(init.fqn)
-        if ic is not None and not ic.inline:
-            # fresh-object preconditions are discharged at the allocation site
-            pass
-        return self.call_repo(init, [obj] + list(args), kwargs, st, lambda _r, s: k(obj, s), self_val=obj)
+        st.constructing = st.constructing | {obj.t.get_id()}
+
+        def inited(_r, s):
+            s.constructing = s.constructing - {obj.t.get_id()}
+            return k(obj, s)
+        return self.call_repo(init, [obj] + list(args), kwargs, st, inited, self_val=obj)
 
     def check_value_init(self, init, fields):
         """value classes: __init__ must be exactly `self.f = f` for every field"""
